@@ -22,6 +22,11 @@ pub mod testir {
 
 include!(concat!(env!("OUT_DIR"), "/registry.rs"));
 
+/// the generated service module, as text, for descriptor extraction
+pub const SERVICE_SRC: &str = include_str!(concat!(env!("OUT_DIR"), "/plain/verif_service.rs"));
+/// the IR the generated code was produced from
+pub const IR_SRC: &str = include_str!("../ir/verif.json");
+
 /// records every word written to the hasher: equal sequences mean equal hashes for *any* Hasher
 #[derive(Default)]
 pub struct Recorder(pub Vec<u8>);
